@@ -6,6 +6,9 @@ pub mod client;
 
 mod config;
 //pub mod error;
+
+#[cfg(feature = "verif-hooks")]
+pub use shared_state::verif;
 pub mod ext;
 pub mod quic;
 
